@@ -52,8 +52,31 @@ func (c Cfg) skip(class string) bool {
 var (
 	intDom  = []int{0, 1, 2, 3}
 	textDom = []string{"a", "b", "ab", ""}
-	likeDom = []string{"a%", "%b", "_", "%", "ab", "", "a_", "%a%", "_b", "b"}
+	// keyword-bearing data: strings that contain the letters of AND / OR, as a
+	// word of their own or inside a word. They are values only (compared with
+	// = <> < > IN LIKE); in literal renderings they put the letters before,
+	// between and behind the real keywords of a raw condition.
+	kwDom = []string{"or", "and", "sand", "order", "b and c"}
+	// compared values may also be upper case (rows stay lower case, so that
+	// SQLite's case-insensitive LIKE cannot differ from the evaluator)
+	kwValDom = []string{"or", "and", "sand", "order", "b and c", "x OR y", "AND"}
+	likeDom  = []string{"a%", "%b", "_", "%", "ab", "", "a_", "%a%", "_b", "b", "%or%", "%and", "s_nd", "or%", "b and%"}
 )
+
+// rowText draws a stored text value, valText a compared one.
+func rowText(x g) string {
+	if x.pct(35) {
+		return kwDom[x.n(len(kwDom))]
+	}
+	return textDom[x.n(4)]
+}
+
+func valText(x g) string {
+	if x.pct(35) {
+		return kwValDom[x.n(len(kwValDom))]
+	}
+	return textDom[x.n(4)]
+}
 
 // GenRows draws 0..max rows with ids 1..n over the tiny domains.
 func GenRows(rt *rapid.T, max int) []Row {
@@ -68,13 +91,13 @@ func GenRows(rt *rapid.T, max int) []Row {
 
 // GenRow draws the column values of one row.
 func GenRow(x g, id int) Row {
-	r := Row{ID: id, Ca: intDom[x.n(4)], Cb: intDom[x.n(4)], Cs: textDom[x.n(4)]}
+	r := Row{ID: id, Ca: intDom[x.n(4)], Cb: intDom[x.n(4)], Cs: rowText(x), Cor: intDom[x.n(4)], Band: rowText(x)}
 	if !x.pct(35) {
 		v := intDom[x.n(4)]
 		r.Cn = &v
 	}
 	if !x.pct(35) {
-		v := textDom[x.n(4)]
+		v := rowText(x)
 		r.Ct = &v
 	}
 	return r
@@ -87,7 +110,7 @@ func G(rt *rapid.T) g { return newG(rt) }
 
 func genVal(x g, col string) Val {
 	if IsText(col) {
-		return StrV(textDom[x.n(4)])
+		return StrV(valText(x))
 	}
 	return IntV(x.n(5)) // 4 matches nothing
 }
@@ -237,7 +260,7 @@ func genStructUnit(x g, cfg Cfg) *Unit {
 			u.Fields[col] = v
 			u.Members = append(u.Members, Atom(col, OpEq, IntV(v)))
 			u.Feats["struct:pk-field"] = true
-		case "ca", "cb":
+		case "ca", "cb", "cor":
 			v := x.n(4) // 0 = zero field: no condition
 			u.Fields[col] = v
 			if v != 0 {
@@ -245,8 +268,11 @@ func genStructUnit(x g, cfg Cfg) *Unit {
 			} else {
 				u.Feats["struct:zero-field"] = true
 			}
-		case "cs":
-			v := textDom[x.n(4)]
+		case "cs", "band":
+			v := valText(x)
+			if x.pct(15) {
+				v = ""
+			}
 			u.Fields[col] = v
 			if v != "" {
 				u.Members = append(u.Members, Atom(col, OpEq, StrV(v)))
@@ -259,7 +285,7 @@ func genStructUnit(x g, cfg Cfg) *Unit {
 			u.Members = append(u.Members, Atom(col, OpEq, IntV(v)))
 			u.Feats["struct:pointer-field"] = true
 		case "ct":
-			v := textDom[x.n(4)]
+			v := valText(x)
 			u.Fields[col] = &v
 			u.Members = append(u.Members, Atom(col, OpEq, StrV(v)))
 			u.Feats["struct:pointer-field"] = true
